@@ -67,13 +67,22 @@ inductive XDecl where
   | tuplePos (xs : List XDecl)
   /-- a Structure class (ClassReference when nested) -/
   | struct (c : ClassOpts) (fields : List (String × XDecl))
+  /-- a Structure class with `_enable_undefined_value = True`: an attribute explicitly set to None is not the same
+      as one left out (Undefined): it is serialized as null, and a null in a document is handed to the field -/
+  | structU (c : ClassOpts) (fields : List (String × XDecl))
 deriving Inhabited
 
 /-! ### shape functions of the extension leaves -/
 
 /-- an error that is not an exception class of the real code but the model's "not modelled here" marker -/
+def xOutsideMarkers : List String :=
+  ["outside-model:decimal-str", "outside-model:decimal-seq", "outside-model:decimal-ser",
+   "outside-model:foreign-member", "outside-model:timestamp", "outside-model:temporal-conversion",
+   "outside-model:typedfield-from-list", "outside-model:typedfield-from-dict", "outside-model:mixin-raw-value",
+   "outside-model:untyped-structure", "outside-model:float-key", "outside-model:foreign-instance"]
+
 def xOutside : ErrCls → Bool
-  | .other n => n.startsWith "outside-model"
+  | .other n => xOutsideMarkers.contains n     -- (every "outside-model:…" marker the models use; `==` on strings reduces in the kernel)
   | _ => false
 
 /-- `Decimal(value)`: numbers (bool included) convert exactly; None / dict raise TypeError; a str goes
@@ -230,6 +239,16 @@ def shallowOkX (XO : XOracles) : XDecl → PyVal → Bool
   | .mapStr _, v => (match v with | .dict _ => true | _ => false)
   | .tuplePos _, v => (match v with | .tuple _ => true | _ => false)
   | .struct c _, v => (vClassRef c v).toBool
+  | .structU c _, v => (vClassRef c v).toBool
+
+/-- `serialize_internal` of an instance of an `_enable_undefined_value` class: attributes holding None are written (as null) -/
+def sInstU (c : ClassOpts) (v : PyVal) (g : List (String × PyVal) → R (List (PyVal × PyVal))) : R PyVal :=
+  match v with
+  | .none => .ok .none
+  | .inst cn attrs =>
+    if !(cn == c.name || c.accepts.contains cn) then .error (.other "outside-model:foreign-instance")
+    else bindE (g attrs) fun r => .ok (.dict r)
+  | _ => .error (.other "AttributeError")
 
 /-! ### the recursive dispatchers -/
 
@@ -252,6 +271,7 @@ def validateX (XO : XOracles) : XDecl → PyVal → R PyVal
       bindE (validateX XO x kv.2) fun v' => .ok (k', v'))) v
   | .tuplePos xs, v => vTuple false (fun ys => xs.length == ys.length) (validateZipX XO xs) v
   | .struct c _, v => vClassRef c v
+  | .structU c _, v => vClassRef c v
 termination_by structural x _ => x
 def validateZipX (XO : XOracles) : List XDecl → List PyVal → R (List PyVal)
   | [], ys => .ok ys
@@ -281,6 +301,7 @@ def validateFieldsX (XO : XOracles) (c : ClassOpts) (kw : List (String × PyVal)
 def constructX (XO : XOracles) (cls : XDecl) (kw : List (String × PyVal)) : R PyVal :=
   match cls with
   | .struct c fields => vConstruct c (fields.map (·.1)) kw (validateFieldsX XO c kw fields)
+  | .structU c fields => vConstruct c (fields.map (·.1)) kw (validateFieldsX XO c kw fields)
   | _ => .error (.other "not-a-class")
 
 mutual
@@ -302,6 +323,9 @@ def serX (XO : XOracles) : XDecl → PyVal → R PyVal
   | .tuplePos xs, v => sSeq (serZipX XO xs) v
   | .struct c fields, v =>
     sInst c v (mapE (fun (a : String × PyVal) =>
+      bindE (serFieldX XO fields a.1 a.2) fun j => .ok (PyVal.str a.1, j)))
+  | .structU c fields, v =>
+    sInstU c v (mapE (fun (a : String × PyVal) =>
       bindE (serFieldX XO fields a.1 a.2) fun j => .ok (PyVal.str a.1, j)))
 termination_by structural x _ => x
 def serZipX (XO : XOracles) : List XDecl → List PyVal → R (List PyVal)
@@ -352,6 +376,13 @@ def deserX (XO : XOracles) (opts : DeserOpts) (ign : Bool) : XDecl → PyVal →
       bindE (bindE (deserFieldsX XO opts c kw fields)
         (fun args => .ok (deserExtras opts c (fields.map (·.1)) kw ++ args))) fun args =>
       vConstruct c (fields.map (·.1)) args (validateFieldsX XO c args fields)
+  | .structU c fields, v =>
+    if v.isNone && ign then .ok v
+    else dClassRef v (!keepsExtras opts c)
+      (fun kw => bindE (deserFieldsXU XO opts c kw fields) fun _ => .ok ()) fun kw =>
+      bindE (bindE (deserFieldsXU XO opts c kw fields)
+        (fun args => .ok (deserExtras opts c (fields.map (·.1)) kw ++ args))) fun args =>
+      vConstruct c (fields.map (·.1)) args (validateFieldsX XO c args fields)
 termination_by structural x _ => x
 def deserZipX (XO : XOracles) (opts : DeserOpts) : List XDecl → List PyVal → R (List PyVal)
   | [], ys => .ok ys
@@ -377,6 +408,18 @@ def deserFieldsX (XO : XOracles) (opts : DeserOpts) (c : ClassOpts) (doc : List 
       | .ok y => bindE (deserFieldsX XO opts c doc rest) fun ys => .ok ((name, y) :: ys)
       | .error e => .error e
 termination_by structural fs => fs
+/-- the same for an `_enable_undefined_value` class: a null is processed like any other value -/
+def deserFieldsXU (XO : XOracles) (opts : DeserOpts) (c : ClassOpts) (doc : List (String × PyVal)) :
+    List (String × XDecl) → R (List (String × PyVal))
+  | [] => .ok []
+  | (name, x) :: rest =>
+    match lookup name doc with
+    | none => deserFieldsXU XO opts c doc rest
+    | some v =>
+      match deserX XO opts c.ignoreNone x v with
+      | .ok y => bindE (deserFieldsXU XO opts c doc rest) fun ys => .ok ((name, y) :: ys)
+      | .error e => .error e
+termination_by structural fs => fs
 end
 
 /-- `Deserializer(cls).deserialize(doc)` -/
@@ -384,6 +427,8 @@ def deserializeX (XO : XOracles) (opts : DeserOpts) (cls : XDecl) (doc : PyVal) 
   match cls, doc with
   | .struct c fields, .dict kvs => deserX XO opts false (.struct c fields) (.dict kvs)
   | .struct _ _, _ => .error .typeErr
+  | .structU c fields, .dict kvs => deserX XO opts false (.structU c fields) (.dict kvs)
+  | .structU _ _, _ => .error .typeErr
   | _, _ => .error (.other "not-a-class")
 
 /-- `Serializer(x).serialize()` -/
